@@ -14,6 +14,8 @@ Helper lemmas live in `Infretis.Perm.Blocks`.
 -/
 namespace Infretis.Perm.Blocks
 
+set_option linter.unusedSectionVars false
+
 /-! ## positivity of the permanent -/
 
 theorem sumPick_nonneg {α : Type} (f : α → List α → Rat) (l : List α)
@@ -124,4 +126,828 @@ theorem pSpec_map_take (k : Nat) (rows : Mat) (hl : rows.length = k) (i j : Nat)
   unfold pSpec
   rw [he, hW, hm]
 
+/-! ## the normalised view of `SortedReach` -/
+
+/-- what the block proof uses of `SortedReach`: `E i` = the entry of `nonZeroCounts` for row `i` -/
+structure SR (o : Nat) (S : Mat) (E : Nat → Nat) : Prop where
+  ho : o ≤ 1
+  rowlen : ∀ r ∈ S, r.length = S.length
+  nonneg : ∀ i c, 0 ≤ entry S i c
+  zero_hi : ∀ i c, i < S.length → E i ≤ c → entry S i c = 0
+  pos : ∀ i c, i < S.length → o ≤ i → o ≤ c → c < E i → 0 < entry S i c
+  pos0 : o = 1 → 0 < entry S 0 0
+  E0 : o = 1 → E 0 = 1
+  mono : ∀ i j, i ≤ j → j < S.length → E i ≤ E j
+  hall : ∀ i, i < S.length → i + 1 ≤ E i
+  le : ∀ i, i < S.length → E i ≤ S.length
+
+/-- the counts of `find_blocks` on the sorted reachable family -/
+def Eof (o : Nat) (cnts : List Nat) (i : Nat) : Nat := if i < o then 1 else o + cnts.getD (i - o) 0
+
+theorem getD_of_length_le (r : Row) (c : Nat) (h : r.length ≤ c) : r.getD c 0 = 0 := by
+  simp [List.getD_eq_getElem?_getD, List.getElem?_eq_none h]
+
+theorem entry_of_length_le (S : Mat) (i c : Nat) (h : S.length ≤ i) : entry S i c = 0 := by
+  simp [entry, List.getD_eq_getElem?_getD, List.getElem?_eq_none h]
+
+theorem sr_of_sortedReach (o : Nat) (S : Mat) (cnts : List Nat) (hS : SortedReach o S cnts) :
+    SR o S (Eof o cnts) := by
+  have ho := hS.ho
+  have hlen := hS.hlen
+  have hcases : ∀ i, i < S.length →
+      (i < o ∧ IsMinusRow S.length (S.getD i [])) ∨
+      (o ≤ i ∧ i - o < cnts.length ∧ IsPlusRow o S.length (cnts.getD (i - o) 0) (S.getD i [])) := by
+    intro i hi
+    by_cases h : i < o
+    · left
+      have h0 : i = 0 := by omega
+      subst h0
+      exact ⟨h, hS.minus (by omega)⟩
+    · right
+      have hk : i - o < cnts.length := by omega
+      have := hS.plus (i - o) hk
+      rw [show o + (i - o) = i by omega] at this
+      exact ⟨by omega, hk, this⟩
+  have hmono : ∀ a b, a ≤ b → b < cnts.length → cnts.getD a 0 ≤ cnts.getD b 0 := by
+    intro a b hab hb
+    rcases Nat.eq_or_lt_of_le hab with h | h
+    · subst h; exact le_refl _
+    · have := (List.pairwise_iff_getElem.mp hS.sorted) a b (by omega) hb h
+      simpa [List.getD_eq_getElem?_getD, hb, show a < cnts.length by omega] using this
+  have hrl : ∀ i, i < S.length → (S.getD i []).length = S.length := by
+    intro i hi
+    rcases hcases i hi with ⟨_, hm⟩ | ⟨_, _, hp⟩
+    · exact hm.1
+    · exact hp.1
+  refine ⟨ho, ?_, ?_, ?_, ?_, ?_, ?_, ?_, ?_, ?_⟩
+  · intro r hr
+    obtain ⟨i, hi, rfl⟩ := List.getElem_of_mem hr
+    have := hrl i hi
+    rwa [List.getD_eq_getElem _ _ hi] at this
+  · intro i c
+    by_cases hi : i < S.length
+    · by_cases hc : c < S.length
+      · unfold entry
+        rcases hcases i hi with ⟨_, hm⟩ | ⟨_, _, hp⟩
+        · by_cases h0 : c = 0
+          · subst h0; exact le_of_lt hm.2.1
+          · exact le_of_eq (hm.2.2 c (by omega) hc).symm
+        · by_cases h1 : c < o
+          · exact le_of_eq (hp.2.2.1 c h1).symm
+          · by_cases h2 : c < o + cnts.getD (i - o) 0
+            · exact le_of_lt (hp.2.2.2.1 c (by omega) h2)
+            · exact le_of_eq (hp.2.2.2.2 c (by omega) hc).symm
+      · unfold entry
+        rw [getD_of_length_le _ _ (by rw [hrl i hi]; omega)]
+    · rw [entry_of_length_le S i c (by omega)]
+  · intro i c hi hc
+    by_cases hcm : c < S.length
+    · unfold entry
+      unfold Eof at hc
+      rcases hcases i hi with ⟨h, hm⟩ | ⟨h, _, hp⟩
+      · rw [if_pos h] at hc
+        exact hm.2.2 c hc hcm
+      · rw [if_neg (by omega)] at hc
+        exact hp.2.2.2.2 c hc hcm
+    · unfold entry
+      rw [getD_of_length_le _ _ (by rw [hrl i hi]; omega)]
+  · intro i c hi hoi hoc hc
+    unfold entry
+    unfold Eof at hc
+    rw [if_neg (by omega)] at hc
+    rcases hcases i hi with ⟨h, _⟩ | ⟨_, _, hp⟩
+    · omega
+    · exact hp.2.2.2.1 c hoc hc
+  · intro h1
+    have : 0 < S.length := by omega
+    rcases hcases 0 this with ⟨_, hm⟩ | ⟨h, _⟩
+    · exact hm.2.1
+    · omega
+  · intro h1
+    simp [Eof, h1]
+  · intro i j hij hj
+    unfold Eof
+    have hallj := hS.hall
+    by_cases h1 : i < o
+    · rw [if_pos h1]
+      by_cases h2 : j < o
+      · rw [if_pos h2]
+      · rw [if_neg h2]
+        have := hallj (j - o) (by omega)
+        omega
+    · rw [if_neg h1, if_neg (by omega)]
+      have := hmono (i - o) (j - o) (by omega) (by omega)
+      omega
+  · intro i hi
+    unfold Eof
+    by_cases h1 : i < o
+    · rw [if_pos h1]; omega
+    · rw [if_neg h1]
+      have := hS.hall (i - o) (by omega)
+      omega
+  · intro i hi
+    unfold Eof
+    by_cases h1 : i < o
+    · rw [if_pos h1]; omega
+    · rw [if_neg h1]
+      rcases hcases i hi with ⟨h, _⟩ | ⟨_, _, hp⟩
+      · omega
+      · exact hp.2.1
+
+theorem nonnegRows_of_entry (S : Mat) (h : ∀ i c, 0 ≤ entry S i c) : NonnegRows S := by
+  intro r hr c
+  obtain ⟨i, hi, rfl⟩ := List.getElem_of_mem hr
+  have := h i c
+  simpa [entry, List.getD_eq_getElem?_getD, hi] using this
+
+theorem entry_eq_getElem (S : Mat) (i c : Nat) (hi : i < S.length) :
+    entry S i c = S[i].getD c 0 := by
+  simp [entry, List.getD_eq_getElem?_getD, hi]
+
+section sr
+variable {o : Nat} {S : Mat} {E : Nat → Nat} (h : SR o S E)
+include h
+
+theorem SR.diag (i : Nat) (hi : i < S.length) : 0 < entry S i i := by
+  by_cases hoi : o ≤ i
+  · exact h.pos i i hi hoi hoi (h.hall i hi)
+  · have := h.ho
+    have h0 : i = 0 := by omega
+    subst h0
+    exact h.pos0 (by omega)
+
+theorem SR.permC_pos : 0 < permC S :=
+  Blocks.permC_pos S (nonnegRows_of_entry S h.nonneg) h.diag
+
+end sr
+
+/-! ## the square sub-block -/
+
+theorem subBlock_one (S : Mat) (a b : Nat) :
+    subBlock S a b 1 = ((S.drop a).take (b - a)).map (fun r => (r.drop a).take (b - a)) := by
+  unfold subBlock
+  apply List.map_congr_left
+  intro r _
+  rw [if_neg (by decide)]
+
+theorem subBlock_eq_map_take (S : Mat) (a b : Nat) :
+    subBlock S a b 1 = ((((S.drop a).map (List.drop a)).take (b - a))).map (List.take (b - a)) := by
+  rw [subBlock_one, ← List.map_take, List.map_map]
+  rfl
+
+theorem subBlock_length (S : Mat) (a b : Nat) (dir : Int) (hb : b ≤ S.length) :
+    (subBlock S a b dir).length = b - a := by
+  simp [subBlock]; omega
+
+theorem subBlock_rowlen (S : Mat) (a b : Nat) (hb : b ≤ S.length)
+    (hrl : ∀ r ∈ S, r.length = S.length) : ∀ r ∈ subBlock S a b 1, r.length = b - a := by
+  intro r hr
+  rw [subBlock_one] at hr
+  obtain ⟨r0, hr0, rfl⟩ := List.mem_map.mp hr
+  have : r0 ∈ S := List.mem_of_mem_drop (List.mem_of_mem_take hr0)
+  have := hrl r0 this
+  simp; omega
+
+theorem subBlock_entry (S : Mat) (a b i c : Nat) (hi : i < b - a) (hc : c < b - a) :
+    entry (subBlock S a b 1) i c = entry S (a + i) (a + c) := by
+  rw [subBlock_one]
+  simp only [entry, List.getD_eq_getElem?_getD, List.getElem?_map, List.getElem?_take,
+    List.getElem?_drop, if_pos hi]
+  cases S[a + i]? with
+  | none => simp
+  | some r => simp [List.getElem?_drop, hc]
+
+/-! ## the permanent ratios of the sorted matrix, block by block -/
+
+section tile
+variable {o : Nat} {S : Mat} {E : Nat → Nat} (h : SR o S E)
+  (a b : Nat) (hab : a < b) (hb : b ≤ S.length)
+  (ha : ∀ j, j < a → E j ≤ a) (hbE : ∀ j, j < b → E j ≤ b)
+include h hab hb ha
+
+theorem top_zero : ∀ r ∈ S.take a, ∀ c, a ≤ c → c < a + (S.length - a) → r.getD c 0 = 0 := by
+  intro r hr c hc _
+  obtain ⟨t, ht, rfl⟩ := List.getElem_of_mem hr
+  have ht' : t < a := by simp at ht; omega
+  have htS : t < S.length := by omega
+  rw [List.getElem_take, ← entry_eq_getElem S t c htS]
+  exact h.zero_hi t c htS (le_trans (ha t ht') hc)
+
+theorem take_append_ne : permC (S.take a ++ S.drop a) ≠ 0 := by
+  rw [List.take_append_drop]
+  exact ne_of_gt h.permC_pos
+
+theorem outer_lower (i' j : Nat) (hi : i' < S.length - a) (hj : j < a) : pSpec S (a + i') j = 0 := by
+  have := pSpec_block_lower a (S.length - a) (S.take a) (S.drop a) (by simp; omega) (by simp)
+    (top_zero h a b hab hb ha) i' j hi hj
+  rwa [List.take_append_drop] at this
+
+theorem outer_bottom (i' j' : Nat) (hi : i' < S.length - a) :
+    pSpec S (a + i') (a + j') = pSpec ((S.drop a).map (List.drop a)) i' j' := by
+  have := pSpec_block_bottom a (S.length - a) (S.take a) (S.drop a) (by simp; omega) (by simp)
+    (top_zero h a b hab hb ha) (take_append_ne h a b hab hb ha) i' j' hi
+  rwa [List.take_append_drop] at this
+
+theorem permC_D_ne : permC ((S.drop a).map (List.drop a)) ≠ 0 :=
+  (permC_block_ne a (S.length - a) (S.take a) (S.drop a) (by simp; omega) (by simp)
+    (top_zero h a b hab hb ha) (take_append_ne h a b hab hb ha)).2
+
+include hbE
+
+theorem D_top_zero : ∀ r ∈ ((S.drop a).map (List.drop a)).take (b - a), ∀ c, b - a ≤ c →
+    c < (b - a) + (S.length - a - (b - a)) → r.getD c 0 = 0 := by
+  intro r hr c hc _
+  obtain ⟨t, ht, rfl⟩ := List.getElem_of_mem hr
+  have ht' : t < b - a := by simp at ht; omega
+  have htS : a + t < S.length := by omega
+  rw [List.getElem_take, List.getElem_map, List.getElem_drop, getD_drop,
+    ← entry_eq_getElem S (a + t) (a + c) htS]
+  exact h.zero_hi (a + t) (a + c) htS (le_trans (hbE (a + t) (by omega)) (by omega))
+
+theorem inner_upper (i' j' : Nat) (hi : i' < b - a) (hj1 : b - a ≤ j') (hj2 : j' < S.length - a) :
+    pSpec ((S.drop a).map (List.drop a)) i' j' = 0 := by
+  have := pSpec_block_upper (b - a) (S.length - a - (b - a))
+    (((S.drop a).map (List.drop a)).take (b - a)) (((S.drop a).map (List.drop a)).drop (b - a))
+    (by simp; omega) (D_top_zero h a b hab hb ha hbE) i' j' hi hj1 (by omega)
+  rwa [List.take_append_drop] at this
+
+theorem inner_top (i' j' : Nat) (hi : i' < b - a) (hj : j' < b - a) :
+    pSpec ((S.drop a).map (List.drop a)) i' j' = pSpec (subBlock S a b 1) i' j' := by
+  have hne : permC (((S.drop a).map (List.drop a)).take (b - a)
+      ++ ((S.drop a).map (List.drop a)).drop (b - a)) ≠ 0 := by
+    rw [List.take_append_drop]; exact permC_D_ne h a b hab hb ha
+  have := pSpec_block_top (b - a) (S.length - a - (b - a))
+    (((S.drop a).map (List.drop a)).take (b - a)) (((S.drop a).map (List.drop a)).drop (b - a))
+    (by simp; omega) (by simp; omega) (D_top_zero h a b hab hb ha hbE) hne i' j' hi hj
+  rw [List.take_append_drop] at this
+  rw [this, subBlock_eq_map_take, pSpec_map_take (b - a) _ (by simp; omega) i' j' hi hj]
+
+/-- **the ratios of the sorted matrix on the rows of the block `(a, b)`** -/
+theorem pSpec_tile (i j : Nat) (hi1 : a ≤ i) (hi2 : i < b) (hj : j < S.length) :
+    pSpec S i j = if a ≤ j ∧ j < b then pSpec (subBlock S a b 1) (i - a) (j - a) else 0 := by
+  obtain ⟨i', rfl⟩ : ∃ i', i = a + i' := ⟨i - a, by omega⟩
+  have hi' : i' < b - a := by omega
+  rw [Nat.add_sub_cancel_left]
+  by_cases hja : j < a
+  · rw [if_neg (by omega)]
+    exact outer_lower h a b hab hb ha i' j (by omega) hja
+  · obtain ⟨j', rfl⟩ : ∃ j', j = a + j' := ⟨j - a, by omega⟩
+    rw [outer_bottom h a b hab hb ha i' j' (by omega), Nat.add_sub_cancel_left]
+    by_cases hjb : a + j' < b
+    · rw [if_pos ⟨by omega, hjb⟩]
+      exact inner_top h a b hab hb ha hbE i' j' hi' (by omega)
+    · rw [if_neg (by omega)]
+      exact inner_upper h a b hab hb ha hbE i' j' hi' (by omega) (by omega)
+
+end tile
+
+/-! ## the rows written by one block -/
+
+theorem map_range_tile (f : Nat → Rat) (a k m : Nat) (h : a + k ≤ m)
+    (hz : ∀ n, n < m → ¬(a ≤ n ∧ n < a + k) → f n = 0) :
+    (List.range m).map f = List.replicate a 0 ++ (List.range k).map (fun t => f (a + t))
+      ++ List.replicate (m - a - k) 0 := by
+  obtain ⟨d, rfl⟩ : ∃ d, m = a + k + d := ⟨m - a - k, by omega⟩
+  rw [List.range_add, List.range_add, List.map_append, List.map_append, List.map_map, List.map_map]
+  congr 1
+  · congr 1
+    rw [List.eq_replicate_iff]
+    refine ⟨by simp, ?_⟩
+    intro x hx
+    obtain ⟨n, hn, rfl⟩ := List.mem_map.mp hx
+    have := List.mem_range.mp hn
+    exact hz n (by omega) (by omega)
+  · rw [List.eq_replicate_iff]
+    refine ⟨by simp; omega, ?_⟩
+    intro x hx
+    obtain ⟨n, hn, rfl⟩ := List.mem_map.mp hx
+    have := List.mem_range.mp hn
+    exact hz (a + k + n) (by omega) (by omega)
+
+theorem specMat_take (S : Mat) (b : Nat) (hb : b ≤ S.length) :
+    (specMat S).take b
+      = (List.range b).map (fun i => (List.range S.length).map (fun j => pSpec S i j)) := by
+  unfold specMat
+  rw [← List.map_take, List.take_range, Nat.min_eq_left hb]
+
+section tile2
+variable {o : Nat} {S : Mat} {E : Nat → Nat} (h : SR o S E)
+  (a b : Nat) (hab : a < b) (hb : b ≤ S.length)
+  (ha : ∀ j, j < a → E j ≤ a) (hbE : ∀ j, j < b → E j ≤ b)
+include h hab hb ha hbE
+
+theorem specMat_row_tile (t : Nat) (ht : t < b - a) :
+    (List.range S.length).map (fun j => pSpec S (a + t) j)
+      = padRow S.length a 1
+          ((List.range (b - a)).map (fun j => pSpec (subBlock S a b 1) t j)) := by
+  unfold padRow
+  rw [if_neg (by decide), List.length_map, List.length_range]
+  rw [map_range_tile (fun j => pSpec S (a + t) j) a (b - a) S.length (by omega)]
+  · congr 2
+    apply List.map_congr_left
+    intro j hj
+    have hj' := List.mem_range.mp hj
+    rw [pSpec_tile h a b hab hb ha hbE (a + t) (a + j) (by omega) (by omega) (by omega),
+      if_pos ⟨by omega, by omega⟩, Nat.add_sub_cancel_left, Nat.add_sub_cancel_left]
+  · intro n hn hnn
+    rw [pSpec_tile h a b hab hb ha hbE (a + t) n (by omega) (by omega) hn, if_neg (by omega)]
+
+/-- the rows of the block `(a, b)` are the rows `a … b-1` of the specification -/
+theorem specMat_take_tile :
+    (specMat S).take b
+      = (specMat S).take a ++ (specMat (subBlock S a b 1)).map (padRow S.length a 1) := by
+  rw [specMat_take S b hb, specMat_take S a (by omega)]
+  obtain ⟨k, rfl⟩ : ∃ k, b = a + k := ⟨b - a, by omega⟩
+  rw [List.range_add, List.map_append, List.map_map]
+  congr 1
+  unfold specMat
+  rw [subBlock_length S a (a + k) 1 hb, List.map_map, Nat.add_sub_cancel_left]
+  apply List.map_congr_left
+  intro t ht
+  have := specMat_row_tile h a (a + k) hab hb ha hbE t (by have := List.mem_range.mp ht; omega)
+  rw [Nat.add_sub_cancel_left] at this
+  exact this
+
+end tile2
+
+/-! ## the value computed for one block -/
+
+/-- a square block of the sorted matrix: `k × k`, row `i` positive on the first `g i` columns
+    and zero after, `i < g i` (Hall) -/
+structure IsBlk (sub : Mat) (k : Nat) (g : Nat → Nat) : Prop where
+  hk : sub.length = k
+  hrow : ∀ r ∈ sub, r.length = k
+  hpos : ∀ i c, i < k → c < k → c < g i → 0 < entry sub i c
+  hzero : ∀ i c, i < k → c < k → g i ≤ c → entry sub i c = 0
+  hg : ∀ i, i < k → i + 1 ≤ g i
+
+section blk
+variable {sub : Mat} {k : Nat} {g : Nat → Nat} (h : IsBlk sub k g)
+include h
+
+theorem IsBlk.nonneg : NonnegRows sub := by
+  intro r hr c
+  obtain ⟨i, hi, rfl⟩ := List.getElem_of_mem hr
+  have hik : i < k := by rw [← h.hk]; exact hi
+  by_cases hc : c < k
+  · rw [← entry_eq_getElem sub i c hi]
+    by_cases hcg : c < g i
+    · exact le_of_lt (h.hpos i c hik hc hcg)
+    · exact le_of_eq (h.hzero i c hik hc (by omega)).symm
+  · rw [getD_of_length_le _ _ (by rw [h.hrow _ hr]; omega)]
+
+theorem IsBlk.diag (i : Nat) (hi : i < k) : 0 < entry sub i i :=
+  h.hpos i i hi hi (h.hg i hi)
+
+theorem IsBlk.permC_pos : 0 < permC sub :=
+  Blocks.permC_pos sub h.nonneg (fun i hi => h.diag i (by rw [← h.hk]; exact hi))
+
+end blk
+
+theorem IsBlk.single {sub : Mat} {g : Nat → Nat} (h : IsBlk sub 1 g) : specMat sub = [[1]] := by
+  match sub, h with
+  | [r], h =>
+    have hr := h.hrow r (by simp)
+    match r, hr, h with
+    | [x], _, h =>
+      have hx : 0 < x := by
+        simpa [entry] using h.hpos 0 0 (by omega) (by omega) (by have := h.hg 0 (by omega); omega)
+      have hx' : x ≠ 0 := ne_of_gt hx
+      simp [specMat, pSpec, entry, minor, permC, permN, sumPick, hx']
+
+theorem le_maxL (l : List Rat) (x : Rat) (hx : x ∈ l) : x ≤ maxL l := by
+  induction l with
+  | nil => simp at hx
+  | cons a t ih =>
+    cases t with
+    | nil =>
+      have : x = a := by simpa using hx
+      subst this; simp [maxL]
+    | cons b t' =>
+      simp only [maxL]
+      rcases List.mem_cons.mp hx with hxa | hxt
+      · subst hxa
+        split
+        · exact le_refl _
+        · next hlt => exact not_lt.mp hlt
+      · have := ih hxt
+        split
+        · next hlt => exact le_trans this (le_of_lt hlt)
+        · exact this
+
+theorem IsBlk.glynn {sub : Mat} {k : Nat} {g : Nat → Nat} (h : IsBlk sub k g) (hk2 : 2 ≤ k) :
+    permanentProb sub = .ok (specMat sub) := by
+  have hlen := h.hk
+  have hresc : ∀ r ∈ rescaled sub, r.length = k := by
+    intro r hr
+    simp only [rescaled, scaleAll, List.mem_map] at hr
+    obtain ⟨r1, hr1, rfl⟩ := hr
+    simp [scaleRow, h.hrow r1 hr1]
+  unfold permanentProb
+  apply permanentProbWith_eq_spec
+  · intro h0; rw [h0] at hlen; simp at hlen; omega
+  · intro r hr
+    obtain ⟨i, hi, rfl⟩ := List.getElem_of_mem hr
+    have hik : i < k := by rw [← h.hk]; exact hi
+    have hd := h.diag i hik
+    rw [entry_eq_getElem sub i i hi] at hd
+    have hil : i < sub[i].length := by rw [h.hrow _ hr]; exact hik
+    have hmem : sub[i].getD i 0 ∈ sub[i] := by
+      rw [List.getD_eq_getElem _ _ hil]; exact List.getElem_mem hil
+    have := le_maxL _ _ hmem
+    intro h0; rw [h0] at this; linarith
+  · exact ne_of_gt h.permC_pos
+  · intro i j hi hj
+    have hl : (rescaled sub).length = k := by simp [rescaled, scaleAll, hlen]
+    have hml : (minor (rescaled sub) i j).length = k - 1 := by
+      rw [length_minor _ _ _ (by omega), hl]
+    apply glynn_eq_permC
+    · omega
+    · intro r hr
+      rw [hml]
+      simp only [minor, List.mem_map] at hr
+      obtain ⟨r0, hr0, rfl⟩ := hr
+      have := hresc r0 (List.mem_of_mem_eraseIdx hr0)
+      rw [List.length_eraseIdx, this, if_pos (by omega)]
+
+/-! ### `quick_prob` on a row-constant block -/
+
+theorem quickCols_congr (arr arr' : Mat) (n : Nat) (t : List Rat)
+    (h : ∀ c, c < n → (colOf arr c).map indicator = (colOf arr' c).map indicator) :
+    quickCols arr n t = quickCols arr' n t := by
+  induction n generalizing t with
+  | zero => rfl
+  | succ n ih =>
+    simp only [quickCols]
+    rw [h n (Nat.lt_succ_self n), ih _ (fun c hc => h c (Nat.lt_succ_of_lt hc))]
+
+/-- `quick_prob` only reads the zero pattern -/
+theorem quickProb_congr (arr arr' : Mat) (hl : arr.length = arr'.length)
+    (hn : ncols arr = ncols arr')
+    (h : ∀ c, c < ncols arr → (colOf arr c).map indicator = (colOf arr' c).map indicator) :
+    quickProb arr = quickProb arr' := by
+  unfold quickProb
+  rw [← hl, ← hn, quickCols_congr arr arr' _ _ h]
+
+theorem hall_count (g : Nat → Nat) (k c : Nat) (hg : ∀ i, i < k → i + 1 ≤ g i) :
+    k - c ≤ (((List.range k).map g).filter (fun x => c < x)).length := by
+  induction k with
+  | zero => simp
+  | succ k ih =>
+    rw [List.range_succ, List.map_append, List.filter_append, List.length_append]
+    have := ih (fun i hi => hg i (by omega))
+    by_cases hc : c ≤ k
+    · have : c < g k := by have := hg k (by omega); omega
+      simp [this]; omega
+    · omega
+
+theorem hall_Dnum (g : Nat → Nat) (k : Nat) (hg : ∀ i, i < k → i + 1 ≤ g i) :
+    ∀ c, c < ((List.range k).map g).length → 1 ≤ Dnum ((List.range k).map g) c := by
+  intro c hc
+  have hc' : c < k := by simpa using hc
+  have h1 := hall_count g k c hg
+  have h2 : ((k - c : Nat) : Rat)
+      ≤ ((((List.range k).map g).filter (fun x => c < x)).length : Rat) := by exact_mod_cast h1
+  rw [Nat.cast_sub (le_of_lt hc')] at h2
+  unfold Dnum
+  simp only [List.length_map, List.length_range]
+  linarith
+
+theorem IsBlk.ncols {sub : Mat} {k : Nat} {g : Nat → Nat} (h : IsBlk sub k g) (hk1 : 1 ≤ k) :
+    ncols sub = k := by
+  match sub, h with
+  | [], h => have := h.hk; simp at this; omega
+  | r :: rest, h => simpa [Infretis.Perm.ncols] using h.hrow r (by simp)
+
+theorem IsBlk.quick {sub : Mat} {k : Nat} {g : Nat → Nat} (h : IsBlk sub k g) (hk1 : 1 ≤ k)
+    (hrc : rowConstAt 0 sub = true) : quickProb sub = specMat sub := by
+  have hcl : ((List.range k).map g).length = k := by simp
+  have hne : (List.range k).map g ≠ [] := by
+    intro h0; rw [h0] at hcl; simp at hcl; omega
+  have hall := hall_Dnum g k h.hg
+  have hlen := h.hk
+  -- the same zero pattern
+  have h1 : quickProb sub = quickProb (stair ((List.range k).map g)) := by
+    apply quickProb_congr
+    · rw [stair_length, hcl, hlen]
+    · rw [ncols_stair _ hne, hcl, h.ncols hk1]
+    · intro c hc
+      rw [h.ncols hk1] at hc
+      rw [colOf_stair _ c (by rw [hcl]; exact hc)]
+      apply List.ext_getElem
+      · simp [colOf, hlen]
+      · intro i hi1 hi2
+        have hik : i < k := by simpa using hi2
+        have his : i < sub.length := by omega
+        simp only [colOf, List.map_map, List.getElem_map, List.getElem_range, Function.comp]
+        rw [← entry_eq_getElem sub i c his]
+        by_cases hcg : c < g i
+        · have := h.hpos i c hik hc hcg
+          simp [indicator, hcg, ne_of_gt this]
+        · have := h.hzero i c hik hc (by omega)
+          simp [indicator, hcg, this]
+  -- rescaling the rows gives the 0/1 staircase
+  simp only [rowConstAt, List.all_eq_true, Bool.or_eq_true, beq_iff_eq] at hrc
+  have hst : stair ((List.range k).map g) = scaleAll (fun r => 1 / r.getD 0 0) sub := by
+    apply List.ext_getElem
+    · simp [stair, scaleAll, hlen]
+    · intro i hi1 hi2
+      have hik : i < k := by simpa [stair] using hi1
+      have his : i < sub.length := by omega
+      have hrl : sub[i].length = k := h.hrow _ (List.getElem_mem his)
+      simp only [stair, scaleAll, List.getElem_map, List.getElem_range, List.length_map,
+        List.length_range]
+      apply List.ext_getElem
+      · simp [stairRow, scaleRow, hrl]
+      · intro c hc1 hc2
+        have hck : c < k := by simpa [stairRow] using hc1
+        have hcr : c < sub[i].length := by omega
+        simp only [stairRow, scaleRow, List.getElem_map, List.getElem_range]
+        have he : entry sub i c = sub[i][c] := by
+          rw [entry_eq_getElem sub i c his, List.getD_eq_getElem _ _ hcr]
+        by_cases hcg : c < g i
+        · have hp := h.hpos i c hik hck hcg
+          rw [he] at hp
+          rcases hrc sub[i] (List.getElem_mem his) sub[i][c] (List.getElem_mem hcr) with h3 | h3
+          · have hne0 : sub[i][c] ≠ 0 := ne_of_gt hp
+            have hone : 1 / List.getD sub[i] 0 0 * sub[i][c] = 1 := by
+              rw [← h3]; field_simp
+            rw [if_pos hcg]
+            exact hone.symm
+          · rw [h3] at hp; exact absurd hp (lt_irrefl _)
+        · have hz := h.hzero i c hik hck (by omega)
+          rw [he] at hz
+          rw [if_neg hcg, hz]; simp
+  have hf : ∀ r ∈ sub, (fun r : Row => 1 / r.getD 0 0) r ≠ 0 := by
+    intro r hr
+    obtain ⟨i, hi, rfl⟩ := List.getElem_of_mem hr
+    have hik : i < k := by omega
+    have := h.hpos i 0 hik (by omega) (by have := h.hg i hik; omega)
+    rw [entry_eq_getElem sub i 0 hi] at this
+    exact one_div_ne_zero (ne_of_gt this)
+  rw [h1, quickProb_stair_eq_spec _ hall]
+  unfold specMat
+  rw [stair_length, hcl, hlen]
+  apply List.map_congr_left
+  intro i _
+  apply List.map_congr_left
+  intro j _
+  rw [hst]
+  exact pSpec_scaleAll (fun r => 1 / r.getD 0 0) [] sub hf i j
+
+/-! ## `find_blocks` and the block loop on the sorted reachable family -/
+
+theorem isBlk_sub {o : Nat} {S : Mat} {E : Nat → Nat} (h : SR o S E) (a b : Nat) (hab : a < b)
+    (hb : b ≤ S.length) (hoa : o ≤ a ∨ b = 1) :
+    IsBlk (subBlock S a b 1) (b - a) (fun i => E (a + i) - a) := by
+  refine ⟨subBlock_length S a b 1 hb, subBlock_rowlen S a b hb h.rowlen, ?_, ?_, ?_⟩
+  · intro i c hi hc hcg
+    rw [subBlock_entry S a b i c hi hc]
+    rcases hoa with hoa | hb1
+    · exact h.pos (a + i) (a + c) (by omega) (by omega) (by omega) (by omega)
+    · have : c = i := by omega
+      subst this
+      exact h.diag (a + c) (by omega)
+  · intro i c hi hc hcg
+    rw [subBlock_entry S a b i c hi hc]
+    have := h.hall (a + i) (by omega)
+    exact h.zero_hi (a + i) (a + c) (by omega) (by omega)
+  · intro i hi
+    have := h.hall (a + i) (by omega)
+    omega
+
+theorem filter_length_lt (m e : Nat) (p : Nat → Bool) (he : e ≤ m)
+    (hp : ∀ c, c < m → p c = decide (c < e)) : ((List.range m).filter p).length = e := by
+  induction m generalizing e with
+  | zero => simp; omega
+  | succ m ih =>
+    rw [List.range_succ, List.filter_append, List.length_append]
+    by_cases hem : e ≤ m
+    · rw [ih e hem (fun c hc => hp c (by omega))]
+      have : p m = false := by rw [hp m (by omega)]; simp; omega
+      simp [this]
+    · have hee : e = m + 1 := by omega
+      rw [ih m (le_refl _) (fun c hc => by rw [hp c (by omega)]; simp; omega)]
+      have : p m = true := by rw [hp m (by omega)]; simp; omega
+      simp [this, hee]
+
+theorem nonZeroCounts_eq {o : Nat} {S : Mat} {E : Nat → Nat} (h : SR o S E) :
+    nonZeroCounts S o = (List.range S.length).map E := by
+  unfold nonZeroCounts
+  apply List.ext_getElem
+  · simp
+  · intro i h1 h2
+    have hi : i < S.length := by simpa using h1
+    have ho := h.ho
+    simp only [List.getElem_map, List.getElem_zipIdx, List.getElem_range, zero_add]
+    rw [h.rowlen _ (List.getElem_mem hi)]
+    apply filter_length_lt _ _ _ (h.le i hi)
+    intro c hc
+    have hall := h.hall i hi
+    by_cases hco : c < o
+    · by_cases hio : i < o
+      · have hc0 : c = 0 := by omega
+        have hi0 : i = 0 := by omega
+        subst hc0; subst hi0
+        have := h.pos0 (by omega)
+        have hE := h.E0 (by omega)
+        simp [hco, hE, ne_of_gt this]
+      · have : c < E i := by omega
+        simp [hco, hio, this]
+    · simp only [hco, if_false]
+      rw [← entry_eq_getElem S i c hi]
+      by_cases hio : i < o
+      · have hi0 : i = 0 := by omega
+        subst hi0
+        have hE := h.E0 (by omega)
+        have := h.zero_hi 0 c hi (by omega)
+        simp [this, hE]; omega
+      · by_cases hcE : c < E i
+        · have := h.pos i c hi (by omega) (by omega) hcE
+          simp [hcE, ne_of_gt this]
+        · have := h.zero_hi i c hi (by omega)
+          simp [hcE, this]
+
+theorem reverse_short (l : Row) (hl : l.length ≤ 1) : l.reverse = l := by
+  match l, hl with
+  | [], _ => rfl
+  | [x], _ => rfl
+
+theorem subBlock_dir (S : Mat) (a : Nat) (dir : Int) :
+    subBlock S a (a + 1) dir = subBlock S a (a + 1) 1 := by
+  unfold subBlock
+  apply List.map_congr_left
+  intro r _
+  rw [if_neg (show ¬ (1 : Int) = -1 by decide)]
+  split
+  · exact reverse_short _ (by simp)
+  · rfl
+
+theorem padRow_dir (m a : Nat) (dir : Int) (vals : Row) (hl : vals.length ≤ 1) :
+    padRow m a dir vals = padRow m a 1 vals := by
+  unfold padRow
+  rw [if_neg (show ¬ (1 : Int) = -1 by decide)]
+  split
+  · rw [reverse_short _ hl]
+  · rfl
+
+theorem blockLoop_cons (S : Mat) (m a b : Nat) (dir : Int) (bs : List (Nat × Nat × Int))
+    (acc : BlockAcc)
+    (h1 : (subBlock S a b dir).length = 1 → specMat (subBlock S a b dir) = [[1]])
+    (h2 : (subBlock S a b dir).length ≠ 1 → rowConstAt 0 (subBlock S a b dir) = true →
+      quickProb (subBlock S a b dir) = specMat (subBlock S a b dir))
+    (h3 : (subBlock S a b dir).length ≠ 1 →
+      permanentProb (subBlock S a b dir) = .ok (specMat (subBlock S a b dir)))
+    (hr : branchOf (subBlock S a b dir) ≠ .random) :
+    blockLoop S m ((a, b, dir) :: bs) acc
+      = blockLoop S m bs { acc with
+          rows := acc.rows ++ (specMat (subBlock S a b dir)).map (padRow m a dir) } := by
+  rw [blockLoop]
+  generalize subBlock S a b dir = sub at *
+  by_cases c1 : sub.length = 1
+  · have hb : branchOf sub = .single := by simp [branchOf, c1]
+    simp only [hb]
+    rw [h1 c1]
+  · by_cases c2 : rowConstAt 0 sub = true
+    · have hb : branchOf sub = .quick := by simp [branchOf, c1, c2]
+      simp only [hb]
+      rw [h2 c1 c2]
+    · by_cases c3 : sub.length ≤ 12
+      · have hb : branchOf sub = .glynn := by simp [branchOf, c1, c2, c3]
+        simp only [hb, h3 c1]
+      · exact absurd (by simp [branchOf, c1, c2, c3]) hr
+
+theorem specMat_row_length (M : Mat) : ∀ r ∈ specMat M, r.length = M.length := by
+  intro r hr
+  simp only [specMat, List.mem_map, List.mem_range] at hr
+  obtain ⟨i, _, rfl⟩ := hr
+  simp
+
+/-- one block of the tiling: the loop writes the rows `a … b-1` of the specification -/
+theorem block_step {o : Nat} {S : Mat} {E : Nat → Nat} (h : SR o S E) (a b : Nat) (hab : a < b)
+    (hb : b ≤ S.length) (ha : ∀ j, j < a → E j ≤ a) (hbE : ∀ j, j < b → E j ≤ b)
+    (hoa : o ≤ a ∨ b = 1) (dir : Int) (hdir : dir = 1 ∨ b = a + 1)
+    (rest : List (Nat × Nat × Int)) (hr : branchOf (subBlock S a b dir) ≠ .random) :
+    blockLoop S S.length ((a, b, dir) :: rest)
+        { rows := (specMat S).take a, mc := [], nan := false, err := none }
+      = blockLoop S S.length rest
+        { rows := (specMat S).take b, mc := [], nan := false, err := none } := by
+  have hsub : subBlock S a b dir = subBlock S a b 1 := by
+    rcases hdir with rfl | rfl
+    · rfl
+    · exact subBlock_dir S a dir
+  have blk := isBlk_sub h a b hab hb hoa
+  have hk := blk.hk
+  rw [blockLoop_cons S S.length a b dir rest _ ?_ ?_ ?_ hr]
+  · congr 2
+    rw [hsub, specMat_take_tile h a b hab hb ha hbE]
+    congr 1
+    apply List.map_congr_left
+    intro r hr'
+    rcases hdir with rfl | hba
+    · rfl
+    · apply padRow_dir
+      rw [specMat_row_length _ r hr', hk]; omega
+  · rw [hsub]
+    intro hl
+    rw [hk] at hl
+    rw [hl] at blk
+    exact blk.single
+  · rw [hsub]
+    intro hl hrc
+    exact blk.quick (by omega) hrc
+  · rw [hsub]
+    intro hl
+    rw [hk] at hl
+    exact blk.glynn (by omega)
+
+theorem loop_good {o : Nat} {S : Mat} {E : Nat → Nat} (h : SR o S E) :
+    ∀ n i start acc, i + n = S.length → start ≤ i → (i = S.length → start = S.length) →
+      (o ≤ start ∨ i = 0) → (∀ j, j < start → E j ≤ start) →
+      acc = { rows := (specMat S).take start, mc := [], nan := false, err := none } →
+      (∀ blk ∈ blocksGo o ((List.range' i n).map E) i start,
+          branchOf (subBlock S blk.1 blk.2.1 blk.2.2) ≠ .random) →
+      blockLoop S S.length (blocksGo o ((List.range' i n).map E) i start) acc = goodAcc S := by
+  intro n
+  induction n with
+  | zero =>
+    intro i start acc hin _ hend _ _ hacc _
+    have := hend (by omega)
+    subst hacc
+    simp only [List.range'_zero, List.map_nil, blocksGo, blockLoop, goodAcc]
+    rw [this, List.take_of_length_le (by simp [specMat])]
+  | succ n ih =>
+    intro i start acc hin hsi hend hor hst hacc hsmall
+    have hgo : blocksGo o ((List.range' i (n + 1)).map E) i start
+        = if E i = i + 1 then
+            (start, E i, if start < o then -1 else 1)
+              :: blocksGo o ((List.range' (i + 1) n).map E) (i + 1) (E i)
+          else blocksGo o ((List.range' (i + 1) n).map E) (i + 1) start := by
+      rw [List.range'_succ, List.map_cons, blocksGo]
+    have hiS : i < S.length := by omega
+    have ho := h.ho
+    rw [hgo] at hsmall ⊢
+    by_cases hclose : E i = i + 1
+    · rw [if_pos hclose] at hsmall ⊢
+      rw [hclose] at hsmall ⊢
+      subst hacc
+      have hbE : ∀ j, j < i + 1 → E j ≤ i + 1 := by
+        intro j hj
+        have := h.mono j i (by omega) hiS
+        omega
+      rw [block_step h start (i + 1) (by omega) (by omega) hst hbE ?_ _ ?_ _
+        (hsmall _ List.mem_cons_self)]
+      · apply ih (i + 1) (i + 1) _ (by omega) (le_refl _) (fun _ => by omega) (Or.inl (by omega))
+          hbE rfl
+        intro blk hblk
+        exact hsmall blk (List.mem_cons_of_mem _ hblk)
+      · rcases hor with hor | hor
+        · exact Or.inl hor
+        · right; omega
+      · by_cases hso : start < o
+        · right
+          rcases hor with hor | hor <;> omega
+        · left; rw [if_neg hso]
+    · rw [if_neg hclose] at hsmall ⊢
+      apply ih (i + 1) start acc (by omega) (by omega) ?_ ?_ hst hacc hsmall
+      · intro him
+        have h1 := h.hall i hiS
+        have h2 := h.le i hiS
+        omega
+      · rcases hor with hor | hor
+        · exact Or.inl hor
+        · by_cases hso : o ≤ start
+          · exact Or.inl hso
+          · exfalso
+            subst hor
+            have := h.E0 (by omega)
+            omega
+
 end Infretis.Perm.Blocks
+
+namespace Infretis.Perm
+
+open Blocks in
+/-- **The block branch of `inf_retis`**: on the sorted reachable family with non-equal weights
+    the loop over the blocks of `find_blocks` (none of them sent to `random_prob`) writes exactly
+    the permanent ratios of the sorted matrix. -/
+theorem sortedOut_blocks (s : Sorted) (cnts : List Nat)
+    (hS : SortedReach s.offset s.sorted cnts)
+    (hm : s.m = s.sorted.length) (h2 : 2 ≤ s.sorted.length) (he : s.equal = false)
+    (hsmall : ∀ bs, findBlocks s.sorted s.offset = .list bs →
+      ∀ b ∈ bs, branchOf (subBlock s.sorted b.1 b.2.1 b.2.2) ≠ .random) :
+    sortedOut s = goodAcc s.sorted := by
+  have h := sr_of_sortedReach s.offset s.sorted cnts hS
+  have hfb : findBlocks s.sorted s.offset
+      = .list (blocksGo s.offset ((List.range' 0 s.sorted.length).map (Eof s.offset cnts)) 0 0) := by
+    unfold findBlocks
+    rw [if_neg (by omega), nonZeroCounts_eq h, List.range_eq_range']
+  have hloop := loop_good h s.sorted.length 0 0
+    { rows := [], mc := [], nan := false, err := none } (by omega) (le_refl _) (by omega)
+    (Or.inr rfl) (fun j hj => by omega) (by simp) (hsmall _ hfb)
+  unfold sortedOut
+  rw [he, hfb]
+  simp only [Bool.false_eq_true, if_false, hm, hloop]
+  simp [goodAcc, specMat]
+
+end Infretis.Perm
